@@ -55,6 +55,9 @@ package dsl
 //@   property C10
 //@   requires value != nil
 //@   ensures result1 == nil ==> result0 != nil
+// a length that is not an integer is a located error of the model, not big.Int's message without a position
+//@   invariant 0: !errSeen("math/big.(*Int).UnmarshalText")
+//@   ensures a_malformed_length_is_a_located_error: errSeen("math/big.(*Int).UnmarshalText") ==> typeof(result1) == validation.ValidationError
 //@ func UnmarshalArrayYAML
 //@   entry
 //@   property C10
@@ -170,6 +173,14 @@ package dsl
 //@ func ParseYamlInDir
 //@   property C11,C09
 //@   ensures an_incomplete_directory_walk_is_an_error: errSeen(filepath.Walk) ==> result1 != nil
+// C10 (located diagnostics): the passes that give every node its file name, and expression nodes their position in the
+// model file, walk the tree through VisitChildren. A subscript argument is a node of its own (the type checker reports
+// errors at it): the walk has to reach the argument, not only its value - otherwise its diagnostics read `:1:3:`.
+// Stated for the instance that plain Visit uses; the other instances share the source.
+//@ observe-args dsl.(VisitorWithContext[any]).Visit[any]
+//@ func dsl.(VisitorWithContext[any]).VisitChildren[any]
+//@   property C10
+//@   iteration 10: a_subscript_argument_is_visited_as_a_node: typeof(node) == *SubscriptExpression ==> typeof(lastArg("dsl.(VisitorWithContext[any]).Visit[any]", 1)) == *SubscriptArgument
 //@ func parseError
 //@   requires node != nil
 // Diagnostics are located: whoever reports an error or a warning hands over the node it is about (both constructors
@@ -498,7 +509,22 @@ package dsl
 //@   pure
 //@   stable
 //@ spec func commonOf() Type = lastResult(GetCommonType).r0
+// Negation is an arithmetic operator: like the binary operators it is defined for integer, floating-point and complex
+// operands only (`-s` on a string, a vector, a bool or a union is an ill-typed computed field: the C++ does not
+// compile, the Python raises TypeError).
+// The resolved type of an expression node is read off the node (every implementation returns a field or the resolved
+// type of a sub-expression): an observer, a function of the receiver and the heap.
+//@ func dsl.Expression.GetResolvedType
+//@   pure
+//@ spec func numericKind(t Type) bool = GetKindIfPrimitive(t).ok && (GetKindIfPrimitive(t).primitiveKind == PrimitiveKindInteger || GetKindIfPrimitive(t).primitiveKind == PrimitiveKindFloatingPoint || GetKindIfPrimitive(t).primitiveKind == PrimitiveKindComplexFloatingPoint)
+//@ spec func negated(r Node) Expression = r.(*UnaryExpression).Expression
 //@ func resolveComputedFields$1
+//@   property C09,C08
+//@   ensures negation_is_type_checked: typeof(node) == *UnaryExpression && typeof(result) == *UnaryExpression && result.(*UnaryExpression) != nil && negated(result) != nil && negated(result).GetResolvedType() != nil ==> called(GetKindIfPrimitive)
+//@   ensures negation_needs_a_numeric_operand: typeof(node) == *UnaryExpression && called(GetKindIfPrimitive) && !(lastResult(GetKindIfPrimitive).ok && (lastResult(GetKindIfPrimitive).primitiveKind == PrimitiveKindInteger || lastResult(GetKindIfPrimitive).primitiveKind == PrimitiveKindFloatingPoint || lastResult(GetKindIfPrimitive).primitiveKind == PrimitiveKindComplexFloatingPoint)) ==> called("validation.(*ErrorSink).Add")
+// A subscript on an array needs at least one index, also when the array's rank is unknown (`d: int[]`, `d[]` would be
+// printed as `self.d[]`), and can only name dimensions that the array declares.
+//@   ensures array_subscript_without_arguments_is_an_error: typeof(node) == *SubscriptExpression && called(ToGeneralizedType) && lastResult(ToGeneralizedType) != nil && typeof(lastResult(ToGeneralizedType).Dimensionality) == *Array && lastResult(ToGeneralizedType).Dimensionality.(*Array) != nil && (lastResult(ToGeneralizedType).Dimensionality.(*Array).Dimensions == nil || len(*lastResult(ToGeneralizedType).Dimensionality.(*Array).Dimensions) > 0) && typeof(result) == *SubscriptExpression && result.(*SubscriptExpression) != nil && len(result.(*SubscriptExpression).Arguments) == 0 ==> called("validation.(*ErrorSink).Add")
 //@   property C19
 //@   ensures pow_promotes_by_common_type: typeof(node) == *BinaryExpression && called(GetCommonType) && !called(validationError) && typeof(result) == *BinaryExpression && result.(*BinaryExpression) != nil && result.(*BinaryExpression).Operator == BinaryOpPow && result.(*BinaryExpression).ResolvedType != nil ==> (GetKindIfPrimitive(commonOf()).r0 == PrimitiveKindInteger ==> result.(*BinaryExpression).ResolvedType == Float64Type) && (GetKindIfPrimitive(commonOf()).r0 != PrimitiveKindInteger ==> result.(*BinaryExpression).ResolvedType == commonOf())
 //@   ensures small_integers_promote_to_int32: typeof(node) == *BinaryExpression && called(GetCommonType) && !called(validationError) && typeof(result) == *BinaryExpression && result.(*BinaryExpression) != nil && result.(*BinaryExpression).Operator != BinaryOpPow && result.(*BinaryExpression).ResolvedType != nil ==> ((GetPrimitiveType(commonOf()).primitive == Int8 || GetPrimitiveType(commonOf()).primitive == Uint8 || GetPrimitiveType(commonOf()).primitive == Int16 || GetPrimitiveType(commonOf()).primitive == Uint16) ==> result.(*BinaryExpression).ResolvedType == Int32Type) && (!(GetPrimitiveType(commonOf()).primitive == Int8 || GetPrimitiveType(commonOf()).primitive == Uint8 || GetPrimitiveType(commonOf()).primitive == Int16 || GetPrimitiveType(commonOf()).primitive == Uint16) ==> result.(*BinaryExpression).ResolvedType == commonOf())
@@ -518,12 +544,13 @@ package dsl
 //@   ensures type_references_always_descend: typeof(node) == *SimpleType && node.(*SimpleType) != nil ==> called("dsl.(Visitor).VisitChildren") && called("dsl.(Visitor).Visit")
 //@   ensures generalized_types_always_descend: typeof(node) == *GeneralizedType ==> called("dsl.(Visitor).VisitChildren")
 
-// ---- C06: "changing the type arguments to a generic type" is incompatible: whenever EITHER use site spells type
-// arguments (and the definitions are not already incompatible), the type arguments of the base definitions are compared.
+// ---- C06: "changing the type arguments to a generic type" is incompatible. The arguments may be spelled at the use
+// site (`R<float>` -> `R<int>`) or inside an alias the use site names (`AF: R<float>`, `AI: R<int>`, step type AF -> AI):
+// unless the definitions are already incompatible, the type arguments of the base definitions are always compared.
 //@ func compareSemanticallyEquivalentTypes
 //@   property C06
 //@   requires newType != nil && oldType != nil
-//@   ensures generic_arguments_are_compared: (len(newType.TypeArguments) > 0 || len(oldType.TypeArguments) > 0) && typeof(result) != *TypeChangeIncompatible ==> called(getBaseDefinition)
+//@   ensures generic_arguments_are_compared: typeof(result) != *TypeChangeIncompatible ==> called(getBaseDefinition)
 
 // ---- C09: individual rules. "grew" = the pass reported at least one more error. ---------------------------------
 // A map key must be a primitive scalar type (aliases are looked through by GetUnderlyingType). Whether a key is
@@ -626,10 +653,13 @@ package dsl
 // type of a changed step. Two references to the same generic definition (`Pair<int>`, `Pair<Sample>`) are different
 // nodes with different children, so the walk may not stop at a name it has seen: every definition is entered, every
 // reference is followed, every other node is descended.
+// (C10: a definition object is entered once - identified as an object, not by its name, for the reason above; a
+// diamond-shaped record graph 24 levels deep otherwise took a minute, each level doubling the time.)
+//@ spec func enteredBefore(n Node, entered map[TypeDefinition]bool) bool = entered[n.(TypeDefinition)]
 //@ func resolveAllChanges$1
-//@   property C06,C05
-//@   ensures alias_target_is_followed: typeof(node) == *NamedType && node.(*NamedType) != nil ==> called("dsl.(Visitor).Visit")
-//@   ensures definition_is_entered: typeof(node) == *RecordDefinition || typeof(node) == *EnumDefinition || typeof(node) == *ProtocolDefinition ==> called("dsl.(Visitor).VisitChildren")
+//@   property C06,C05,C10
+//@   ensures alias_target_is_followed: typeof(node) == *NamedType && node.(*NamedType) != nil && !old(enteredBefore(node, oldDefsEntered)) ==> called("dsl.(Visitor).Visit")
+//@   ensures definition_is_entered: (typeof(node) == *RecordDefinition || typeof(node) == *EnumDefinition || typeof(node) == *ProtocolDefinition) && !old(enteredBefore(node, oldDefsEntered)) ==> called("dsl.(Visitor).VisitChildren")
 //@   ensures reference_is_followed: typeof(node) == *SimpleType && node.(*SimpleType) != nil ==> called("dsl.(Visitor).Visit")
 //@   ensures everything_else_descends: typeof(node) == *GeneralizedType || typeof(node) == *TypeCase || typeof(node) == *Field || typeof(node) == *Vector || typeof(node) == *Array || typeof(node) == *Map || typeof(node) == *Stream ==> called("dsl.(Visitor).VisitChildren")
 
